@@ -49,6 +49,42 @@ func init() {
 		rh := runTemplate(text, "", []string{"a", in[4]}, false)
 		c.Case("url_range", hx(in[0]), hx(in[1]), hx(in[2]), hx(in[3]), hx(in[4]), ri.outcome, hx(ri.out), rh.outcome, hx(rh.out))
 	})
+	// url_eff <element> <attribute> <construct: how the static prefix is put together> <text1> <text2> <cond 0|1> <value wire>:
+	//   the static text that precedes the action at run time is not one piece of the template but is put together
+	//   by a branch or by a {{template}} call:
+	//     if    <E A="{{if .C}}T1{{else}}T2{{end}}{{.V}}">      effective prefix: T1 when C, T2 otherwise
+	//     call  {{define "q"}}T2{{end}}<E A="T1{{template "q" .}}{{.V}}">   effective prefix: T1 T2
+	//     with  <E A="T1{{with .C}}T2{{end}}{{.V}}">             effective prefix: T1 T2 when C, T1 otherwise
+	//   judged against the straight-line template with the effective prefix (the engine may refuse more, never less)
+	reg("url_eff", 7, func(c *caseWriter, in []string) {
+		e, a, how, t1, t2, cond, w := in[0], in[1], in[2], in[3], in[4], in[5] == "1", in[6]
+		var text, eff string
+		switch how {
+		case "if":
+			text = "<" + e + " " + a + `="{{if .C}}` + t1 + "{{else}}" + t2 + `{{end}}{{.V}}">`
+			eff = t2
+			if cond {
+				eff = t1
+			}
+		case "call":
+			text = `{{define "q"}}` + t2 + "{{end}}<" + e + " " + a + `="` + t1 + `{{template "q" .}}{{.V}}">`
+			eff = t1 + t2
+		default:
+			text = "<" + e + " " + a + `="` + t1 + "{{with .C}}" + t2 + `{{end}}{{.V}}">`
+			eff = t1
+			if cond {
+				eff = t1 + t2
+			}
+		}
+		if !c14Void[e] {
+			text += "</" + e + ">"
+		}
+		if eff == "" {
+			return // no static prefix at all: the action is the whole value, which is C11's and C02's business
+		}
+		r := runTemplate(text, "", map[string]interface{}{"C": cond, "V": valueFromWire(w)}, false)
+		c.Case("url_eff", hx(e), hx(a), how, hx(t1), hx(t2), in[5], hx(w), hx(eff), hx(text), r.outcome, hx(r.out))
+	})
 	reg("url_proc", 1, func(c *caseWriter, in []string) {
 		n1 := safehtml.VerifNormalizeURL(in[0])
 		c.Case("url_proc", hx(in[0]), hx(n1), hx(safehtml.VerifNormalizeURL(n1)), hx(safehtml.VerifQueryEscapeURL(in[0])))
@@ -175,6 +211,43 @@ func runC14(c *caseWriter) (string, bool, map[string]int) {
 		pdepth = 5
 	}
 	product([]string{"%", "4", "f", "G", "g", "/", "&", " "}, pdepth, func(s string) { data(s) })
+
+	// (2a) prefixes put together by a branch or a call (url_eff): the same prefix spelled with different character
+	// references in the two branches, a branch that ends in an incomplete reference or escape, a callee that
+	// contributes the first ? or # or ends in an incomplete escape
+	{
+		effData := []string{"t", "lt;x", "p", "quot;", "1&admin=1#frag", "v&admin=1#frag", "a b", "../x", "41", "x"}
+		spell := [][2]string{{"/x?a=&amp;l", "/x?a=&l"}, {"/x?a=1&amp;b=", "/x?a=1&#38;b="}, {"/x?a=1&amp;b=", "/x?a=1&#x26;b="}, {"/p/&amp;quo", "/p/&quo"},
+			{"/x%252", "/x&#37;2"}, {"/x?a=&amp;nbs", "/x?a=&nbs"}, {"/p?q=", "/p&quest;q="}, {"/p?q=", "/p?q="}, {"/p/", "/p/"}, {"/a/&#x", "/a/&amp;#x"}, {"/p?q=&amp;g", "/p?q=&g"}}
+		k := 0
+		for _, cl := range []c14Class{urlCls, truCls, classes[3]} {
+			for _, sp := range spell {
+				for _, d := range effData {
+					k++
+					if !thorough && k%2 == 0 {
+						continue
+					}
+					for _, cond := range []string{"0", "1"} {
+						emit(c, "url_eff", cl.e, cl.a, "if", sp[0], sp[1], cond, str(d))
+						emit(c, "url_eff", cl.e, cl.a, "if", sp[1], sp[0], cond, str(d))
+					}
+				}
+			}
+			for _, p := range []string{"/x", "", "/p/", "/p?z=1"} {
+				for _, q := range []string{"?a=1&amp;b=", "#", "?q=", "%", "%2", "&am", "&amp;", "/sub/", "", "&#x", "?", "&quest;q="} {
+					for _, d := range effData {
+						k++
+						if !thorough && k%3 != 0 {
+							continue
+						}
+						emit(c, "url_eff", cl.e, cl.a, "call", p, q, "0", str(d))
+						emit(c, "url_eff", cl.e, cl.a, "with", p, q, "1", str(d))
+						emit(c, "url_eff", cl.e, cl.a, "with", p, q, "0", str(d))
+					}
+				}
+			}
+		}
+	}
 
 	// (2b) long prefixes: an incomplete character reference or percent escape at the end of the prefix,
 	// padded with leading zeros / preceded by long runs (a validator that looks at a window of the
